@@ -226,7 +226,13 @@ def make_params(rng, hpc_type, wall, max_nodes, poll_interval, batch_size=None):
             kw[k] = rng.choice(vals)
     if rng.random() < 0.1:
         kw["resource_monitor_stats"] = {"cpu": False, "disk": True, "process": True}
-    return jsonify(SubmitterParams(**kw).dict())
+    # read the model's attributes, not its dict(): a dict() that drops or rewrites a value must not be able to hide
+    # its own loss by also shaping the generator's input
+    d = plain(SubmitterParams(**kw))
+    for k in ("node_setup_script", "node_shutdown_script"):     # the two keys a group file omits when unset
+        if d.get(k) is None:
+            d.pop(k, None)
+    return jsonify(d)
 
 
 def gen_desc(rng, njobs=None, ngroups=None):
@@ -405,7 +411,7 @@ def inject(rng, desc, kind):
         g = groups[rng.randrange(1, len(groups))] if rng.random() < 0.7 else groups[0]
         p = g["submitter_params"]
         if kind == "inconsistent_max_nodes":
-            p["max_nodes"] = 7 if p["max_nodes"] != 7 else 8
+            p["max_nodes"] = 7 if p.get("max_nodes") != 7 else 8
         elif kind == "inconsistent_poll_interval":
             p["poll_interval"] = p["poll_interval"] + 1
         else:
@@ -499,7 +505,7 @@ def spec_invalid_reasons(obs):
     for g in groups:
         p, p0 = g["submitter_params"], groups[0]["submitter_params"]
         for k in ("max_nodes", "poll_interval"):
-            if p[k] != p0[k]:
+            if p.get(k) != p0.get(k):
                 reasons.append(f"{k} differs between groups")
         if p["hpc_config"]["hpc_type"] != p0["hpc_config"]["hpc_type"]:
             reasons.append("hpc_type differs between groups")
